@@ -163,6 +163,10 @@ func (s *Linear) Nice(o TickOptions) {
 	}
 
 	firstN, lastN, spacing := s.spacingAtLevel(level, true)
-	s.Min = firstN * spacing
-	s.Max = lastN * spacing
+	min, max := firstN*spacing, lastN*spacing
+	if math.IsInf(min, 0) || math.IsNaN(min) || math.IsInf(max, 0) || math.IsNaN(max) {
+		// No level with finite spacing satisfies o.
+		return
+	}
+	s.Min, s.Max = min, max
 }
